@@ -1,8 +1,8 @@
 (* C04 -- Parameter binding precedence, list parameters, SSM references and NoEcho masking.
-   Statements only; proofs are [exact] of lemmas in Resolver/ParamFacts.v, Creds.v, SubFacts.v. *)
+   Statements only; proofs are [exact] of lemmas in Resolver/ParamFacts.v, Creds.v, CredFacts.v, SubFacts.v. *)
 From Coq Require Import List Bool NArith ZArith.
 From PV Require Import Base.Str Base.Value Resolver.Consts Resolver.Text Resolver.Resolve Resolver.Spec Resolver.SubFacts
-  Resolver.Template Resolver.ParamFacts Resolver.Creds.
+  Resolver.Template Resolver.ParamFacts Resolver.Creds Resolver.CredFacts.
 Import ListNotations.
 Local Open Scope N_scope.
 
@@ -82,6 +82,217 @@ Theorem C04_hc_iff : forall auths, (forall k a, In (k, a) auths -> exists d, a =
 Proof. exact any_bad_false_iff. Qed.
 Print Assumptions C04_hc_iff.
 
+(* ---- NoEcho, the Default: only its PRESENCE is read ---- *)
+(* what a reference to a declared NoEcho parameter is bound to after the whole merge {pseudo, declared, extra} *)
+Theorem C04_noecho_binding : forall pseudo decls extra ps s d,
+  bind_params pseudo decls extra = Ok ps -> NoDup (keys decls) -> lookup s decls = Some d -> is_noecho d = true ->
+  lookup s ps = Some (VStr (match supplied s extra, field K_Default d with
+                            | Some _, _ => S_NO_ECHO_WITH_VALUE
+                            | None, Some _ => S_NO_ECHO_WITH_DEFAULT
+                            | None, None => S_NO_ECHO_NO_DEFAULT
+                            end)).
+Proof. exact bind_params_noecho. Qed.
+Print Assumptions C04_noecho_binding.
+
+(* key lemma: two declaration lists that differ in the declaration of ONE name, the two declarations yielding the same
+   reference value, give the same bindings; resolve_model reads the declarations through bind_params only *)
+Theorem C04_same_binding : forall pseudo pre s d1 d2 post extra,
+  ref_value d1 (supplied s extra) = ref_value d2 (supplied s extra) ->
+  bind_params pseudo (pre ++ (s, d1) :: post) extra = bind_params pseudo (pre ++ (s, d2) :: post) extra.
+Proof. exact bind_params_same_binding. Qed.
+Print Assumptions C04_same_binding.
+
+(* with no value supplied, S is bound to the WITH_DEFAULT marker whatever the (non-None) Default is: "" and 0 included *)
+Theorem C04_noecho_default_binding : forall pseudo pre post extra ps s l v,
+  bind_params pseudo (pre ++ (s, with_default v l) :: post) extra = Ok ps -> NoDup (keys (pre ++ (s, with_default v l) :: post)) ->
+  is_noecho (VDict l) = true -> v <> VNull -> supplied s extra = None ->
+  lookup s ps = Some (VStr S_NO_ECHO_WITH_DEFAULT).
+Proof. exact with_default_binding. Qed.
+Print Assumptions C04_noecho_default_binding.
+
+(* the VALUE of a NoEcho parameter's Default cannot influence the resolved model AT ALL: two templates whose declarations of S
+   differ only in that value ([with_default v l] is the declaration l with l["Default"] = v; v <> VNull: `is not None`, so a
+   falsy Default is a Default) resolve to the same Conditions and Resources.  It holds for every [extra]; the case of the
+   property is the one where no value is supplied for S (otherwise the Default is not even looked at). *)
+Theorem C04_noecho_default_noninterference : forall pseudo pre post extra maps cdecl rs s l v1 v2,
+  is_noecho (VDict l) = true -> v1 <> VNull -> v2 <> VNull ->
+  resolve_model pseudo (pre ++ (s, with_default v1 l) :: post) extra maps cdecl rs =
+  resolve_model pseudo (pre ++ (s, with_default v2 l) :: post) extra maps cdecl rs.
+Proof. exact noecho_default_noninterference. Qed.
+Print Assumptions C04_noecho_default_noninterference.
+
+(* general form: ANY two NoEcho declarations of S (they may differ in Type, Description, ... as well) that agree on the
+   presence of a Default are indistinguishable *)
+Theorem C04_noecho_declaration_noninterference : forall pseudo pre post extra maps cdecl rs s d1 d2,
+  is_noecho d1 = true -> is_noecho d2 = true -> (field K_Default d1 = None <-> field K_Default d2 = None) ->
+  resolve_model pseudo (pre ++ (s, d1) :: post) extra maps cdecl rs =
+  resolve_model pseudo (pre ++ (s, d2) :: post) extra maps cdecl rs.
+Proof. exact noecho_default_noninterference_gen. Qed.
+Print Assumptions C04_noecho_declaration_noninterference.
+
+(* ---- has_hardcoded_credentials, the Metadata branch (Resource) ----
+   [clean_field d f]: f is absent from d or holds the NO_ECHO_NO_DEFAULT marker; [clean_entry a]: a is a dictionary whose
+   accessKeyId, password and secretKey are clean; [dirty_entry a]: a is a dictionary one of whose three fields holds something else;
+   [md_auths md a]: a = the entries the check iterates over (none without Metadata / without a truthy authentication block) *)
+Theorem C04_cred_field : forall d f, cred_ok d f = true <-> lookup f d = None \/ lookup f d = Some MARKER.
+Proof. exact cred_ok_iff. Qed.
+Print Assumptions C04_cred_field.
+
+(* the loop over the entries, with no side condition (C04_hc_iff above is the special case "all entries are dictionaries") *)
+Theorem C04_hc_entries_false_iff : forall auths,
+  any_bad auths = Ok false <-> forall k a, In (k, a) auths -> clean_entry a.
+Proof. exact any_bad_false_iff_all. Qed.
+Print Assumptions C04_hc_entries_false_iff.
+
+Theorem C04_hc_entries_true_iff : forall auths,
+  any_bad auths = Ok true <->
+  exists pre k a post, auths = pre ++ (k, a) :: post /\ (forall k' a', In (k', a') pre -> clean_entry a') /\ dirty_entry a.
+Proof. exact any_bad_true_iff. Qed.
+Print Assumptions C04_hc_entries_true_iff.
+
+Theorem C04_hc_entries_true_iff_dicts : forall auths, (forall k a, In (k, a) auths -> exists d, a = VDict d) ->
+  (any_bad auths = Ok true <-> exists k a, In (k, a) auths /\ dirty_entry a).
+Proof. exact any_bad_true_iff_dicts. Qed.
+Print Assumptions C04_hc_entries_true_iff_dicts.
+
+(* AttributeError (`auth.get` on something that is not a dictionary) <-> the first entry that is not clean is not a dictionary *)
+Theorem C04_hc_entries_err_iff : forall auths e,
+  any_bad auths = Err e <->
+  e = EAttr /\ exists pre k a post, auths = pre ++ (k, a) :: post /\ (forall k' a', In (k', a') pre -> clean_entry a') /\
+                                    forall d, a <> VDict d.
+Proof. exact any_bad_err_iff. Qed.
+Print Assumptions C04_hc_entries_err_iff.
+
+(* Resource.has_hardcoded_credentials() is False exactly when every one of accessKeyId / password / secretKey of every
+   authentication entry is absent or equals the marker ... *)
+Theorem C04_hc_resource_iff : forall md,
+  has_hc md = Ok false <-> exists a, md_auths md a /\ forall k x, In (k, x) a -> clean_entry x.
+Proof. exact has_hc_false_iff. Qed.
+Print Assumptions C04_hc_resource_iff.
+
+(* ... in particular: no Metadata, no "AWS::CloudFormation::Authentication" key, or a falsy value under it => False *)
+Theorem C04_hc_resource_no_block : forall md, md_auths md [] -> has_hc md = Ok false.
+Proof. exact has_hc_no_block. Qed.
+Print Assumptions C04_hc_resource_no_block.
+
+Theorem C04_hc_resource_true_iff : forall md,
+  has_hc md = Ok true <-> exists m a, md = VDict m /\ lookup K_CFN_AUTH m = Some (VDict a) /\ any_bad a = Ok true.
+Proof. exact has_hc_true_iff. Qed.
+Print Assumptions C04_hc_resource_true_iff.
+
+Theorem C04_hc_resource_ok_iff : forall md b, has_hc md = Ok b <-> exists a, md_auths md a /\ any_bad a = Ok b.
+Proof. exact has_hc_ok_iff. Qed.
+Print Assumptions C04_hc_resource_ok_iff.
+
+(* the three ways the check fails: an entry that is not a dictionary; a truthy authentication block that is not a dictionary
+   (`.values()`: AttributeError); Metadata that is neither None nor a dictionary (outside the model's domain) *)
+Theorem C04_hc_resource_err_iff : forall md e,
+  has_hc md = Err e <->
+  (exists a, md_auths md a /\ any_bad a = Err e)
+  \/ (e = EAttr /\ exists m v, md = VDict m /\ lookup K_CFN_AUTH m = Some v /\ truthy v = true /\ forall a, v <> VDict a)
+  \/ (e = EUndefined /\ md <> VNull /\ forall m, md <> VDict m).
+Proof. exact has_hc_err_iff. Qed.
+Print Assumptions C04_hc_resource_err_iff.
+
+(* ---- has_hardcoded_credentials, the LoginProfile branch (IAMUser) ----
+   [login_wf login]: the LoginProfile is None or a dictionary; [counted_password login]: it has a Password that is TRUTHY (the
+   code tests `login_profile.get("Password")`: an empty password is treated like an absent one) and is not the marker;
+   [uncounted_password login]: no LoginProfile, no Password, a falsy Password, or the marker *)
+Theorem C04_password_cases : forall login, login_wf login -> counted_password login \/ uncounted_password login.
+Proof. exact password_cases. Qed.
+Print Assumptions C04_password_cases.
+Theorem C04_password_cases_exclusive : forall login, counted_password login -> ~ uncounted_password login.
+Proof. exact counted_not_uncounted. Qed.
+Print Assumptions C04_password_cases_exclusive.
+
+(* the user has hard-coded credentials iff its password counts OR the Metadata authentication block has a bad entry *)
+Theorem C04_hc_user_iff : forall login md, login_wf login ->
+  (has_hc_user login md = Ok true <->
+   counted_password login \/
+   exists m a, md = VDict m /\ lookup K_CFN_AUTH m = Some (VDict a) /\ any_bad a = Ok true).
+Proof. exact hc_user_true_iff. Qed.
+Print Assumptions C04_hc_user_iff.
+
+Theorem C04_hc_user_false_iff : forall login md, login_wf login ->
+  (has_hc_user login md = Ok false <->
+   uncounted_password login /\ exists a, md_auths md a /\ forall k x, In (k, x) a -> clean_entry x).
+Proof. exact hc_user_false_iff. Qed.
+Print Assumptions C04_hc_user_false_iff.
+
+(* a counted password answers True before the Metadata is looked at (even Metadata on which the generic check would raise) *)
+Theorem C04_hc_user_password : forall login md, counted_password login -> has_hc_user login md = Ok true.
+Proof. exact hc_user_counted. Qed.
+Print Assumptions C04_hc_user_password.
+
+(* the password does NOT mask the Metadata: when it is absent, empty or the marker, the answer is exactly the verdict of the
+   base class -- value or exception (seeded change C04-m2 returned the password verdict directly) *)
+Theorem C04_hc_user_password_does_not_mask_metadata : forall login md,
+  uncounted_password login -> has_hc_user login md = has_hc md.
+Proof. exact hc_user_uncounted. Qed.
+Print Assumptions C04_hc_user_password_does_not_mask_metadata.
+
+Theorem C04_hc_user_err_iff : forall login md e, login_wf login ->
+  (has_hc_user login md = Err e <-> uncounted_password login /\ has_hc md = Err e).
+Proof. exact hc_user_err_iff. Qed.
+Print Assumptions C04_hc_user_err_iff.
+
+(* a LoginProfile that is neither None nor a dictionary is outside the model's domain (pydantic: Optional[Dict]) *)
+Theorem C04_hc_user_illformed : forall login md, ~ login_wf login -> has_hc_user login md = Err EUndefined.
+Proof. exact hc_user_illformed. Qed.
+Print Assumptions C04_hc_user_illformed.
+
+(* ---- parameters and credentials together: what {"Ref": S}, S a declared NoEcho parameter, puts into a credential field ---- *)
+Theorem C04_ref_noecho : forall pseudo decls extra ps maps cf s d,
+  bind_params pseudo decls extra = Ok ps -> NoDup (keys decls) -> lookup s decls = Some d -> is_noecho d = true ->
+  do_ref {| params := ps; mappings := maps; conds := cf |} (VStr s) =
+  Ok (VStr (match supplied s extra, field K_Default d with
+            | Some _, _ => S_NO_ECHO_WITH_VALUE
+            | None, Some _ => S_NO_ECHO_WITH_DEFAULT
+            | None, None => S_NO_ECHO_NO_DEFAULT
+            end)).
+Proof. exact do_ref_noecho. Qed.
+Print Assumptions C04_ref_noecho.
+
+(* {"Ref": S} is do_ref of S for every name the leaf rules leave alone *)
+Theorem C04_ref_is_do_ref : forall ps maps cf s, ssm_key s = None -> is_boolish s = false ->
+  resolve {| params := ps; mappings := maps; conds := cf |} (VDict [(K_Ref, VStr s)]) =
+  do_ref {| params := ps; mappings := maps; conds := cf |} (VStr s).
+Proof. exact resolve_ref_noecho. Qed.
+Print Assumptions C04_ref_is_do_ref.
+
+(* the marker that has_hardcoded_credentials forgives arises from such a reference exactly when S has NEITHER a supplied
+   value NOR a Default *)
+Theorem C04_marker_only_from_unset_noecho : forall pseudo decls extra ps maps cf s d,
+  bind_params pseudo decls extra = Ok ps -> NoDup (keys decls) -> lookup s decls = Some d -> is_noecho d = true ->
+  (do_ref {| params := ps; mappings := maps; conds := cf |} (VStr s) = Ok MARKER <->
+   supplied s extra = None /\ field K_Default d = None).
+Proof. exact marker_only_from_unset_noecho. Qed.
+Print Assumptions C04_marker_only_from_unset_noecho.
+
+(* hence: a credential field that is Ref S, S unset, is NOT reported -- the field is clean, and as the user's password it
+   leaves the verdict to the Metadata check *)
+Theorem C04_unset_noecho_ref_not_reported : forall pseudo decls extra ps maps cf s d,
+  bind_params pseudo decls extra = Ok ps -> NoDup (keys decls) -> lookup s decls = Some d -> is_noecho d = true ->
+  forall v, do_ref {| params := ps; mappings := maps; conds := cf |} (VStr s) = Ok v ->
+  supplied s extra = None /\ field K_Default d = None ->
+  (forall a f, lookup f a = Some v -> clean_field a f) /\
+  (forall lp md, lookup K_Password lp = Some v -> has_hc_user (VDict lp) md = has_hc md).
+Proof. exact unset_noecho_ref_not_reported. Qed.
+Print Assumptions C04_unset_noecho_ref_not_reported.
+
+(* and a credential field that is Ref S, S with a Default or a supplied value, IS reported (it resolves to another marker): as
+   the user's password, and as accessKeyId / password / secretKey of an authentication entry *)
+Theorem C04_set_noecho_ref_reported : forall pseudo decls extra ps maps cf s d,
+  bind_params pseudo decls extra = Ok ps -> NoDup (keys decls) -> lookup s decls = Some d -> is_noecho d = true ->
+  forall v, do_ref {| params := ps; mappings := maps; conds := cf |} (VStr s) = Ok v ->
+  ~ (supplied s extra = None /\ field K_Default d = None) ->
+  (forall lp md, lookup K_Password lp = Some v -> has_hc_user (VDict lp) md = Ok true) /\
+  (forall a f, In f CRED_FIELDS -> lookup f a = Some v -> dirty_entry (VDict a)) /\
+  (forall auths k a f, (forall k' a', In (k', a') auths -> exists d', a' = VDict d') ->
+     In (k, VDict a) auths -> In f CRED_FIELDS -> lookup f a = Some v -> any_bad auths = Ok true).
+Proof. exact set_noecho_ref_reported. Qed.
+Print Assumptions C04_set_noecho_ref_reported.
+
 (* ---- witnesses ---- *)
 Definition dNoEchoEmptyDefault : value := VDict [(K_Type, VStr [83]); (K_Default, VStr []); (K_NoEcho, VBool true)].
 Example C04_ex_noecho_empty_default : ref_value dNoEchoEmptyDefault None = Ok (Some (VStr S_NO_ECHO_WITH_DEFAULT)).
@@ -92,3 +303,106 @@ Example C04_ex_list_no_value : ref_value dListNoDefault None = Ok None
 Proof. split; vm_compute; reflexivity. Qed.
 Example C04_ex_ssm : ssm_key (S_SSM_PREFIX ++ [47;112;58;49;125;125]) = Some [47;112;58;49].
 Proof. vm_compute. reflexivity. Qed.
+
+(* ---- witnesses: credentials ---- *)
+Definition sHard : value := VStr [104;97;114;100;99;111;100;101;100].     (* "hardcoded" *)
+Definition mdOf (auths : list (str * value)) : value := VDict [(K_CFN_AUTH, VDict auths)].
+Definition loginOf (p : value) : value := VDict [(K_Password, p)].
+(* C04-m2: the password is the marker, the Metadata holds a literal secretKey => reported *)
+Example C04_ex_user_marker_password_literal_key :
+  has_hc_user (loginOf MARKER) (mdOf [([97;49], VDict [(K_secretKey, sHard)])]) = Ok true
+  /\ uncounted_password (loginOf MARKER).
+Proof. split; [vm_compute; reflexivity|]. right. eexists. split; [reflexivity|]. right. exists MARKER. split; [reflexivity | right; reflexivity]. Qed.
+(* truthiness: an empty password is treated like an absent one; a literal one counts; only marker-valued entries => clean *)
+Example C04_ex_user_passwords :
+  has_hc_user (loginOf (VStr [])) VNull = Ok false
+  /\ has_hc_user (loginOf sHard) VNull = Ok true
+  /\ has_hc_user (loginOf (VStr S_NO_ECHO_WITH_DEFAULT)) VNull = Ok true
+  /\ has_hc_user VNull (mdOf [([97;49], VDict [(K_secretKey, MARKER); (K_Type, sHard)])]) = Ok false
+  /\ has_hc_user (VDict []) (mdOf []) = Ok false.
+Proof. repeat split; vm_compute; reflexivity. Qed.
+Example C04_ex_counted : counted_password (loginOf sHard) /\ login_wf (loginOf sHard) /\ login_wf VNull.
+Proof.
+  split; [exists [(K_Password, sHard)], sHard; repeat split; try reflexivity; discriminate|].
+  split; [right; eexists; reflexivity | left; reflexivity].
+Qed.
+(* the error cases: an entry that is not a dictionary, a block that is not a dictionary, an ill-formed LoginProfile; a counted
+   password answers before any of the Metadata errors *)
+Example C04_ex_hc_errors :
+  has_hc (mdOf [([97;49], sHard)]) = Err EAttr
+  /\ has_hc (VDict [(K_CFN_AUTH, sHard)]) = Err EAttr
+  /\ has_hc (VDict [(K_CFN_AUTH, VStr [])]) = Ok false
+  /\ has_hc_user (loginOf MARKER) (mdOf [([97;49], sHard)]) = Err EAttr
+  /\ has_hc_user (loginOf sHard) (mdOf [([97;49], sHard)]) = Ok true
+  /\ has_hc_user sHard VNull = Err EUndefined.
+Proof. repeat split; vm_compute; reflexivity. Qed.
+Example C04_ex_md_auths : md_auths VNull [] /\ md_auths (VDict []) [] /\ md_auths (VDict [(K_CFN_AUTH, VStr [])]) []
+  /\ md_auths (mdOf [([97;49], VDict [])]) [([97;49], VDict [])].
+Proof.
+  split; [constructor|]. split; [apply MA_no_block; reflexivity|].
+  split; [eapply MA_falsy_block; reflexivity | apply MA_block; reflexivity].
+Qed.
+
+(* ---- witnesses: a whole template (parse is the identity on these), resolve_model, then the check on Resources["R"] ---- *)
+Definition nSecret : str := [83;101;99;114;101;116].     (* "Secret" *)
+Definition nKeyed : str := [75;101;121;101;100].         (* "Keyed" *)
+Definition declBody : list (str * value) := [(K_Type, VStr [83;116;114;105;110;103]); (K_NoEcho, VBool true)].
+Definition refTo (n : str) : value := VDict [(K_Ref, VStr n)].
+Definition userRes (pw : value) (auths : list (str * value)) : value :=
+  VDict [(K_Type, VStr S_IAM_USER);
+         (K_Properties, VDict [(K_LoginProfile, VDict [(K_Password, pw)])]);
+         (K_Metadata, VDict [(K_CFN_AUTH, VDict auths)])].
+Definition hcOf (decls extra : list (str * value)) (auths : list (str * value)) : res bool :=
+  hc_resolved (resolve_model [] decls extra [] [] [([82], userRes (refTo nSecret) auths)]) [82].
+Definition declsUnset : list (str * value) := [(nSecret, VDict declBody)].
+
+(* hypotheses of C04_marker_only_from_unset_noecho are satisfiable, and both sides of its equivalence occur *)
+Example C04_ex_marker_hyps :
+  exists ps, bind_params [] declsUnset [] = Ok ps /\ NoDup (keys declsUnset) /\ lookup nSecret declsUnset = Some (VDict declBody)
+    /\ is_noecho (VDict declBody) = true
+    /\ do_ref {| params := ps; mappings := []; conds := fun _ => Ok false |} (VStr nSecret) = Ok MARKER
+    /\ supplied nSecret [] = None /\ field K_Default (VDict declBody) = None
+    /\ ssm_key nSecret = None /\ is_boolish nSecret = false.
+Proof.
+  eexists. split; [vm_compute; reflexivity|]. split; [repeat constructor; intros []|].
+  repeat split; vm_compute; reflexivity.
+Qed.
+Example C04_ex_marker_set :
+  exists ps, bind_params [] [(nSecret, with_default (VStr []) declBody)] [] = Ok ps
+    /\ do_ref {| params := ps; mappings := []; conds := fun _ => Ok false |} (VStr nSecret) = Ok (VStr S_NO_ECHO_WITH_DEFAULT)
+    /\ field K_Default (with_default (VStr []) declBody) <> None.
+Proof. eexists. split; [vm_compute; reflexivity|]. split; [vm_compute; reflexivity | vm_compute; discriminate]. Qed.
+
+(* LoginProfile.Password = Ref to the unset NoEcho parameter: alone it is not reported ... *)
+Example C04_ex_tpl_password_only : hcOf declsUnset [] [] = Ok false.
+Proof. vm_compute. reflexivity. Qed.
+(* (a) ... but a literal secretKey in the same resource's Metadata is *)
+Example C04_ex_tpl_literal_key : hcOf declsUnset [] [([97;49], VDict [(K_secretKey, sHard)])] = Ok true.
+Proof. vm_compute. reflexivity. Qed.
+(* (b) ... and so is a Ref to a NoEcho parameter WITH a default (even the falsy default "") *)
+Example C04_ex_tpl_ref_with_default :
+  hcOf [(nSecret, VDict declBody); (nKeyed, with_default (VStr []) declBody)] []
+       [([97;49], VDict [(K_password, refTo nKeyed)])] = Ok true.
+Proof. vm_compute. reflexivity. Qed.
+(* (c) only marker-valued entries (a Ref to the unset parameter, the marker spelled out): not reported ... *)
+Example C04_ex_tpl_marker_only :
+  hcOf declsUnset [] [([97;49], VDict [(K_accessKeyId, refTo nSecret); (K_secretKey, MARKER)])] = Ok false.
+Proof. vm_compute. reflexivity. Qed.
+(* ... until a value is supplied for the parameter *)
+Example C04_ex_tpl_marker_only_supplied :
+  hcOf declsUnset [(nSecret, VStr [120])] [([97;49], VDict [(K_accessKeyId, refTo nSecret); (K_secretKey, MARKER)])] = Ok true.
+Proof. vm_compute. reflexivity. Qed.
+
+(* ---- witnesses: the Default of a NoEcho parameter ---- *)
+Definition tplDefault (dv : value) : res value :=
+  resolve_model [] ([] ++ (nSecret, with_default dv declBody) :: []) [] [] []
+    [([82], userRes (refTo nSecret) [([97;49], VDict [(K_secretKey, refTo nSecret)])])].
+(* "", 0 and a real secret are indistinguishable (and the resolution succeeds: the statement is not about two errors) ... *)
+Example C04_ex_default_blind :
+  tplDefault (VStr []) = tplDefault sHard /\ tplDefault (VInt 0) = tplDefault sHard /\ is_ok (tplDefault sHard) = true
+  /\ is_noecho (VDict declBody) = true.
+Proof. repeat split; vm_compute; reflexivity. Qed.
+(* ... whereas Default: null is NO default (the hypothesis v <> VNull is needed): the marker, hence the whole result, differs *)
+Example C04_ex_default_null_differs :
+  tplDefault VNull <> tplDefault sHard /\ hc_resolved (tplDefault VNull) [82] = Ok false /\ hc_resolved (tplDefault sHard) [82] = Ok true.
+Proof. split; [vm_compute; discriminate | split; vm_compute; reflexivity]. Qed.
